@@ -29,13 +29,16 @@ META = {
             "logarithmic coefficients of a_s^2 A2(L) + a_s^3 A3(L) from lower orders - checked at the odd moments N = 3, 5, 7, nf 3-5, "
             "with exact values of the harmonic sums and the tree's own anomalous dimensions (through three loops), beta0 and upward "
             "decoupling table (inverted in the check): exact to 1e-10 for four of them, 2e-3 for the one that needs the parametrised "
-            "three-loop anomalous dimension; off the integers the higher-order L-coefficients "
+            "three-loop anomalous dimension. The same in matrix form for the SINGLET 3x3 matching (basis gluon, light singlet, heavy h+; "
+            "gamma' = the (nf+1)-flavour singlet and non-singlet evolution written in that basis): the L coefficient at first order, L^2 "
+            "and L at second order, L^3 and L^2 at third order, for the gluon and light-quark columns, at N = 4, 6, 8 and nf 3-5, exact to "
+            "1e-10; off the integers the higher-order L-coefficients "
             "keep their RG form only if every parity-dependent harmonic sum requested inside a matching element is continued "
             "with that element's definite parity - every such request passes a literal boolean, the caller's own flag or a "
             "configuration-computed boolean (call-site rule shared with C26, restricted to the matching elements).",
-    "note": "Level 'other': the second- and third-order logarithms are derived for the non-singlet element only (the singlet needs the "
-            "matrix form of the recursion); third-order sum rules and the a_s^3 L^1 coefficient hold only to the accuracy of the "
-            "parametrisations.",
+    "note": "Level 'other': in the singlet sector the a_s^3 L^1 coefficient (which needs the three-loop singlet anomalous dimensions) "
+            "and the heavy-input column beyond first order (not implemented in the tree) are not decided; third-order sum rules and the "
+            "non-singlet a_s^3 L^1 coefficient hold only to the accuracy of the parametrisations.",
     "technique": "partial evaluation at the sum-rule moments + exact special values of harmonic sums; differentiation in L + polynomial identity testing against anomalous dimensions extracted from the tree; definite-parity-flag call-site rule over the matching elements",
     "engine": "sa",
 }
@@ -222,6 +225,8 @@ def run(chk):
     # ---- (2b) second- and third-order logarithms of the non-singlet element from RG invariance -------------------------------------
     n_rg = _ns_higher_logs(chk, src, pe, ft)
     chk.floor("higher-order non-singlet RG identities", n_rg, 30)
+    n_rgs = _singlet_higher_logs(chk, src, pe, ft)
+    chk.floor("singlet RG identities", n_rgs, 40)
     # ---- continuation off the integer moments: the alternating sums of a matching element carry the element's parity -----------
     # The identities above are decided at integer moments, where (-1)**N equals the parity of the element.  For complex N they
     # survive only if every parity-dependent harmonic sum requested inside the matching elements gets the element's definite
@@ -282,4 +287,89 @@ def _ns_higher_logs(chk, src, pe, ft):
                            f"{inst}, {name} coefficient of A_qq^NS: found {lv}, renormalisation-group invariance with the tree's anomalous "
                            f"dimensions, beta0(nf+1) and coupling decoupling requires {rv} (relative tolerance {tol:g})", where=fN.where,
                            instance=f"{inst},{name}", detail=f"{lv} vs {rv}", how="exact special values at odd moments + RG recursion")
+    return n
+
+
+def _singlet_higher_logs(chk, src, pe, ft):
+    """The singlet analogue of _ns_higher_logs in the basis (g, light singlet, heavy h+ = h + hbar) of the tree's 3x3 matching
+    matrix:   dA/dL + beta'(a') dA/da' = A gamma(a) - gamma'(a') A   with gamma the nf-flavour singlet matrix (heavy decoupled) and
+    gamma' the (nf+1)-flavour evolution written in the same basis (singlet 2x2 on (g, Sigma' = q + H), non-singlet+ on q - nf H).
+    Order by order this fixes
+        A1_1 = gamma0 - gamma0'
+      2 A2_2 = beta0' A1_1 + A1_1 gamma0 - gamma0' A1_1 + gamma0 d1_1        A2_1 = beta0' A1_0 + A1_0 gamma0 - gamma0' A1_0 + gamma1 - gamma1'
+      3 A3_3 = 2 beta0' A2_2 + gamma0 d2_2 + A1_1 gamma0 d1_1 + A2_2 gamma0 - gamma0' A2_2
+      2 A3_2 = 2 beta0' A2_1 + beta1' A1_1 + 2 gamma1 d1_1 + gamma0 d2_1 + A1_0 gamma0 d1_1 + A1_1 gamma1 + A2_1 gamma0 - gamma1' A1_1 - gamma0' A2_1
+    for the gluon and light-quark columns (the tree has no heavy-input column beyond first order).  Both sides are evaluated at
+    even moments with exact harmonic-sum values; the right-hand sides use the tree's anomalous dimensions, beta coefficients and the
+    coupling's upward decoupling table (inverted here)."""
+    Ls = sp.Symbol("L")
+    L = dag.sym("L")
+    fS = src.func(f"{OME}.unpolarized.space_like.A_singlet")
+    US = f"{AD}.unpolarized.space_like"
+
+    def num(x):
+        e = sp.sympify(_sym(x, ft))
+        e = e.subs({s_: _CONST[s_.name] for s_ in e.free_symbols if s_.name in _CONST})
+        return sp.N(e, 30)
+
+    def co(M, p):
+        return M.applyfunc(lambda e: sp.Poly(e, Ls).coeff_monomial(Ls ** p) if e != 0 else sp.Integer(0))
+
+    def gq(m2):      # the tree's singlet matrices are ordered (quark, gluon): to (gluon, quark)
+        return sp.Matrix([[m2[1, 1], m2[1, 0]], [m2[0, 1], m2[0, 0]]])
+
+    n = 0
+    for nf in (3, 4, 5):
+        P = sp.Matrix([[1, 0, 0], [0, 1, 1], [0, 1, -nf]])
+
+        def emb(g):
+            return sp.Matrix([[g[0, 0], g[0, 1], 0], [g[1, 0], g[1, 1], 0], [0, 0, 0]])
+
+        def embp(g, ns):
+            return P.inv() * sp.Matrix([[g[0, 0], g[0, 1], 0], [g[1, 0], g[1, 1], 0], [0, 0, ns]]) * P
+
+        cup = pe.call("eko.couplings.compute_matching_coeffs_up", ["POLE", nf])
+        c11, c22, c21 = num(cup[1, 1]), num(cup[2, 2]), num(cup[2, 1])
+        d11, d22, d21 = -c11, 2 * c11 ** 2 - c22, -c21
+        b0p, b1p = num(pe.call("eko.beta.beta_qcd", [(2, 0), nf + 1])), num(pe.call("eko.beta.beta_qcd", [(3, 0), nf + 1]))
+        for N in (4, 6, 8):
+            inst = f"nf={nf},N={N}"
+            try:
+                A = pe.call(fS.qname, [(3, 0), N, nf, L, False])
+                Am = [sp.Matrix(3, 3, lambda r, c, k=k: sp.expand(_sym(A[k, int(r), int(c)], ft))) for k in range(3)]
+                gam = {}
+                for m in (nf, nf + 1):
+                    G = pe.call(f"{US}.gamma_singlet", [(2, 0), N, m, (0,) * 7, True])
+                    ns = pe.call(f"{US}.gamma_ns", [(2, 0), 10101, N, m, (0,) * 7, True]).flat()
+                    gam[m] = [gq(sp.Matrix(2, 2, lambda r, c, k=k: num(G[k, int(r), int(c)]))) for k in (0, 1)] + [num(ns[0]), num(ns[1])]
+            except PERaise as e:
+                chk.fail("higher-order-logs-follow-from-rg-invariance", fS.qname, f"singlet, {inst}: cannot be evaluated: {e}", where=fS.where, instance=inst)
+                continue
+            G0, G1 = emb(gam[nf][0]), emb(gam[nf][1])
+            G0p, G1p = embp(gam[nf + 1][0], gam[nf + 1][2]), embp(gam[nf + 1][1], gam[nf + 1][3])
+            A1_0, A1_1 = co(Am[0], 0), co(Am[0], 1)
+            A2_1, A2_2 = co(Am[1], 1), co(Am[1], 2)
+            A3_2, A3_3 = co(Am[2], 2), co(Am[2], 3)
+            rules = [
+                ("a_s^1 L^1", A1_1, G0 - G0p, (0, 1, 2)),
+                ("a_s^2 L^2", 2 * A2_2, b0p * A1_1 + A1_1 * G0 - G0p * A1_1 + G0 * d11, (0, 1)),
+                ("a_s^2 L^1", A2_1, b0p * A1_0 + A1_0 * G0 - G0p * A1_0 + G1 - G1p, (0, 1)),
+                ("a_s^3 L^3", 3 * A3_3, 2 * b0p * A2_2 + G0 * d22 + A1_1 * G0 * d11 + A2_2 * G0 - G0p * A2_2, (0, 1)),
+                ("a_s^3 L^2", 2 * A3_2, 2 * b0p * A2_1 + b1p * A1_1 + 2 * G1 * d11 + G0 * d21 + A1_0 * G0 * d11 + A1_1 * G1 + A2_1 * G0 - G1p * A1_1 - G0p * A2_1, (0, 1)),
+            ]
+            names = ("gluon", "light-quark", "heavy")
+            for name, lhs, rhs, cols in rules:
+                worst, where_ = 0.0, None
+                scale = max(1.0, max(abs(complex(sp.N(x))) for x in rhs))
+                for r in range(3):
+                    for c in cols:
+                        dv = abs(complex(sp.N(lhs[r, c] - rhs[r, c]))) / scale
+                        if dv > worst:
+                            worst, where_ = dv, (r, c)
+                n += 1
+                chk.decide(worst <= 1e-10, "higher-order-logs-follow-from-rg-invariance", fS.qname,
+                           f"singlet, {inst}, {name} coefficient: entry {names[where_[0]] if where_ else ''}<-{names[where_[1]] if where_ else ''} "
+                           f"deviates by {worst:.3e} (relative to the largest entry) from what renormalisation-group invariance requires with the "
+                           f"tree's anomalous dimensions, beta coefficients and coupling decoupling", where=fS.where, instance=f"singlet,{inst},{name}",
+                           detail=f"max deviation {worst:.1e}", how="exact special values at even moments + matrix RG recursion")
     return n
